@@ -52,6 +52,13 @@ func (o *vfObs) onEvent(e Event) error {
 	return nil
 }
 
+// reset forgets what was observed so far (a case that judges a later connection only).
+func (o *vfObs) reset() {
+	o.mu.Lock()
+	o.events, o.errors, o.errSeq, o.handled, o.kinds = nil, nil, nil, nil, nil
+	o.mu.Unlock()
+}
+
 func (o *vfObs) onError(err error) {
 	o.mu.Lock()
 	o.errors = append(o.errors, err.Error())
